@@ -107,6 +107,19 @@ structure Main (cs : List Chunk) (v : Variant) (c : Cfg) : Prop where
   lateItems : (readIdx c.prog ≠ [] ∨ ∃ i, Item.op (.unlink .temp (.cmeta i)) ∈ c.prog) →
     20 ≤ hr c.prog ∧ notCollected c.prog = false
 
+/-- side conditions on the chunk writers: the invariant is about the serial and executor variants (the forked variant
+as coded is not crash safe, D35), whose chunk writes never touch the metadata file; writes nobody waits for only exist
+once the handler has taken over -/
+structure Side (v : Variant) (c : Cfg) : Prop where
+  nf : v ≠ .forked ∧ c.spec.variant ≠ .forked
+  wmd : ∀ w ∈ c.workers, ∀ o ∈ w.ops, mdFree o = true
+  orphOk : ∀ w ∈ c.orphans, ∀ o ∈ w.ops, tempOp o = true ∧ mdFree o = true
+  orphMode : c.orphans ≠ [] → c.handling = true
+
+theorem Side.congr {v : Variant} {c c' : Cfg} (h : Side v c) (hw : c'.workers = c.workers) (ho : c'.orphans = c.orphans)
+    (hh : c'.handling = c.handling) (hs : c'.spec = c.spec) : Side v c' :=
+  ⟨by rw [hs]; exact h.nf, by rw [hw]; exact h.wmd, by rw [ho]; exact h.orphOk, by rw [ho, hh]; exact h.orphMode⟩
+
 /-- the invariant of the saver machine running the current protocol for chunk list `cs` under variant `v` -/
 structure Inv (cs : List Chunk) (v : Variant) (c : Cfg) : Prop where
   shape : Shape c.prog
@@ -124,6 +137,7 @@ structure Inv (cs : List Chunk) (v : Variant) (c : Cfg) : Prop where
   tempSome : 12 ≤ hr c.prog → hr c.prog ≤ 24 → c.fs.temp ≠ none
   termLate : 19 ≤ hr c.prog → hr c.prog ≤ 25 → c.term = true
   renamed : hr c.prog = 25 → ∃ d, c.fs.final = some d ∧ d.get .md = some (.json c.md)
+  side : Side v c
 
 
 /-! ## helpers for steps that pop the head item -/
@@ -196,6 +210,7 @@ theorem inv_init_low {cs : List Chunk} {v : Variant} {c : Cfg} (h : Inv cs v c) 
   · intro h12 _; simp at h12; omega
   · intro h19 _; simp at h19; omega
   · intro h25; simp at h25; omega
+  · exact h.side.congr rfl rfl rfl rfl
 
 theorem shape_nil : Shape [] := by
   refine ⟨List.Pairwise.nil, by simp, ?_⟩
@@ -222,6 +237,7 @@ theorem inv_terminal {cs : List Chunk} {v : Variant} {c : Cfg} (h : Inv cs v c) 
   · intro _ hk; simp at hk
   · intro _ hk; simp at hk
   · intro hk; simp at hk
+  · exact h.side.congr rfl rfl rfl rfl
 
 theorem hr_handlerItems (hs : HandlerSpec) : 16 ≤ hr (handlerItems hs) ∧ hr (handlerItems hs) ≤ 17 := by
   unfold handlerItems
@@ -231,13 +247,15 @@ theorem hr_handlerItems (hs : HandlerSpec) : 16 ≤ hr (handlerItems hs) ∧ hr 
     have := rank_chunksItems (v := hs.variant) (r := true) hs.extra hs.extraStart y (by rw [hc]; simp)
     simp [this]
 
-/-- the processor's exception handler takes over -/
-theorem inv_handler {cs : List Chunk} {v : Variant} {c : Cfg} (h : Inv cs v c) (ht : c.fs.temp ≠ none) (f : Bool) :
-    Inv cs v { c with prog := handlerItems c.spec, term := true, handling := true, failed := f } := by
+/-- the processor's exception handler takes over; a chunk write that had not reached `pending` is left to itself -/
+theorem inv_handler {cs : List Chunk} {v : Variant} {c : Cfg} (h : Inv cs v c) (ht : c.fs.temp ≠ none) (f b : Bool)
+    (ws' os' : List Worker) (hws : ∀ w ∈ ws', w ∈ c.workers) (hos : ∀ w ∈ os', w ∈ c.orphans ∨ w ∈ c.workers) :
+    Inv cs v { c with prog := handlerItems c.spec, term := true, handling := true, failed := f, unreg := b,
+                      workers := ws', orphans := os' } := by
   have hk := hr_handlerItems c.spec
   constructor
-  · exact shape_handlerItems _
-  · exact h.wtemp
+  · exact shape_handlerItems _ h.side.nf.2
+  · intro w hw; exact h.wtemp w (hws w hw)
   · intro hk'; simp only at hk'; omega
   · intro hk'; simp only at hk'; omega
   · intro hk'; simp only at hk'; omega
@@ -251,6 +269,11 @@ theorem inv_handler {cs : List Chunk} {v : Variant} {c : Cfg} (h : Inv cs v c) (
   · intro _ _; exact ht
   · intro _ _; rfl
   · intro h25; simp only at h25; omega
+  · refine ⟨h.side.nf, fun w hw => h.side.wmd w (hws w hw), ?_, fun _ => rfl⟩
+    intro w hw o ho
+    rcases hos w hw with h1 | h1
+    · exact h.side.orphOk w h1 o ho
+    · exact ⟨h.wtemp w h1 o ho, h.side.wmd w h1 o ho⟩
 
 theorem inv_failedFlag {cs : List Chunk} {v : Variant} {c : Cfg} (h : Inv cs v c) (f : Bool) :
     Inv cs v { c with failed := f } := by
@@ -273,6 +296,7 @@ theorem inv_failedFlag {cs : List Chunk} {v : Variant} {c : Cfg} (h : Inv cs v c
   · exact h.tempSome
   · exact h.termLate
   · exact h.renamed
+  · exact h.side.congr rfl rfl rfl rfl
 
 /-- the saver thread gets an exception while it still has something to do -/
 theorem inv_fail {cs : List Chunk} {v : Variant} {c : Cfg} (h : Inv cs v c) (hne : c.prog ≠ []) : Inv cs v c.fail := by
@@ -297,8 +321,20 @@ theorem inv_fail {cs : List Chunk} {v : Variant} {c : Cfg} (h : Inv cs v c) (hne
       by_cases hk : 19 ≤ hr c.prog
       · have := h.termLate hk hk25; rw [hterm.1] at this; cases this
       · omega
-    have := inv_handler h (h.tempSome (by omega) (by omega)) c.failed
-    simpa using this
+    have hts := h.tempSome (by omega) (by omega)
+    split
+    · have := inv_handler h hts c.failed false c.workers.dropLast (c.orphans ++ c.workers.getLast?.toList)
+        (fun w hw => (List.dropLast_sublist _).subset hw)
+        (fun w hw => by
+          rcases List.mem_append.mp hw with h1 | h1
+          · exact Or.inl h1
+          · right
+            cases hl : c.workers.getLast? with
+            | none => simp [hl] at h1
+            | some a => simp [hl] at h1; subst h1; exact List.mem_of_getLast? hl)
+      simpa using this
+    · have := inv_handler h hts c.failed c.unreg c.workers c.orphans (fun _ hw => hw) (fun _ hw => Or.inl hw)
+      simpa using this
 
 theorem inv_opFail {cs : List Chunk} {v : Variant} {c : Cfg} (h : Inv cs v c) (hne : c.prog ≠ []) : Inv cs v c.opFail := by
   unfold Cfg.opFail
@@ -560,6 +596,7 @@ theorem inv_init_mid {cs : List Chunk} {v : Variant} {c : Cfg} {x : Item} {rest 
     simp [ht]
   · intro h19 _; simp only at h19; omega
   · intro h25; simp only at h25; omega
+  · exact h.side.congr rfl rfl rfl rfl
 
 theorem rank_11_14_cases {x : Item} (h : 11 ≤ rank x) (h' : rank x ≤ 14) :
     x = .op (.mkdir .temp) ∨ x = .flushOpen .init ∨ x = .flushWrite .init ∨ x = .flushClose .init := by
@@ -648,8 +685,10 @@ theorem pendApp_chunksItems {v : Variant} (hv : v ≠ .forked) (r : Bool) :
   | cons c rest ih => intro s; simp [chunksItems, pendApp_append, pendApp_chunkItems hv, ih, infos]
 
 theorem readIdx_chunkItems (v : Variant) (r : Bool) (i : Nat) (c : Chunk) : readIdx (chunkItems v r i c) = [] := by
-  cases v <;> simp only [chunkItems, flushItems]
-  all_goals (split <;> (try split) <;> simp [readIdx])
+  cases v with
+  | forked => simp [chunkItems, readIdx]
+  | serial => simp only [chunkItems, flushItems]; split <;> simp [readIdx]
+  | executor => simp only [chunkItems, flushItems]; split <;> split <;> simp [readIdx]
 
 theorem readIdx_chunksItems (v : Variant) (r : Bool) : ∀ (cs : List Chunk) (s : Nat), readIdx (chunksItems v r s cs) = [] := by
   intro cs
@@ -704,8 +743,12 @@ theorem submitIdx_chunksItems_sorted (v : Variant) (r : Bool) : ∀ (cs : List C
 
 theorem submit_mem_chunkItems {v : Variant} {r : Bool} {i j : Nat} {c : Chunk} {ops : List Op}
     (h : Item.submit j ops ∈ chunkItems v r i c) : j = i ∧ ops = stdOps v i c := by
-  cases v <;> simp only [chunkItems, flushItems, stdOps] at *
-  all_goals (split at h <;> (try split at h) <;> simp at h <;> (try exact h))
+  cases v with
+  | forked => simp only [chunkItems, stdOps, List.mem_singleton] at *; injection h with h1 h2; exact ⟨h1, h2⟩
+  | serial => simp only [chunkItems, flushItems, stdOps] at *; split at h <;> simp at h <;> exact h
+  | executor =>
+    simp only [chunkItems, flushItems, stdOps] at *
+    split at h <;> split at h <;> simp at h <;> exact h
 
 theorem submit_mem_chunksItems (v : Variant) (r : Bool) : ∀ (cs : List Chunk) (s j : Nat) (ops : List Op),
     Item.submit j ops ∈ chunksItems v r s cs → ∃ k, ∃ hk : k < cs.length, j = s + k ∧ ops = stdOps v j cs[k] := by
@@ -797,7 +840,7 @@ theorem pendApp_forked_chunksItems : ∀ (cs : List Chunk) (s : Nat), pendApp (c
   | cons c rest ih => intro s; simp [chunksItems, chunkItems, pendApp, ih]
 
 theorem pendApp_forked_main (cs : List Chunk) : pendApp (mainItems .forked cs ++ closeItems) = [] := by
-  simp [mainItems, pendApp_append, pendApp_forked_chunksItems, pendApp_closeItems, pendApp]
+  simp [mainItems, pendApp_append, pendApp_forked_chunksItems, pendApp_closeItems]
 
 theorem unlinkOK_of_no_unlink {p : List Item} (h : ∀ i, Item.op (.unlink .temp (.cmeta i)) ∉ p) : UnlinkOK p := by
   intro pre post i he
@@ -828,7 +871,7 @@ theorem split_unique {α : Type} {a b pre post : List α} {w : α} (ha : w ∉ a
       obtain ⟨h1, h2⟩ := ih (fun hm => ha (by simp [hm])) he.2
       exact ⟨by rw [h1, he.1], h2⟩
 
-theorem waitAll_main {v : Variant} (hv : v ≠ .serial) (cs : List Chunk) :
+theorem waitAll_main {v : Variant} (hv : v = .executor) (cs : List Chunk) :
     Item.waitAll ∈ mainItems v cs ++ closeItems ∧
       ∀ pre post, mainItems v cs ++ closeItems = pre ++ Item.waitAll :: post → submitIdx post = [] := by
   have hm : mainItems v cs = chunksItems v true 0 cs ++ [.waitAll] := by simp [mainItems, hv]
@@ -845,15 +888,16 @@ theorem waitAll_main {v : Variant} (hv : v ≠ .serial) (cs : List Chunk) :
     | cons c rest ih =>
       simp only [chunksItems, List.mem_append] at hin
       rcases hin with hin | hin
-      · cases v <;> simp only [chunkItems, flushItems] at hin
-        all_goals (split at hin <;> (try split at hin) <;> simp at hin)
+      · subst hv
+        simp only [chunkItems, flushItems] at hin
+        split at hin <;> simp at hin
       · exact ih _ hin
   have hnc : Item.waitAll ∉ closeItems := by simp [closeItems, flushItems]
   obtain ⟨_, hpost⟩ := split_unique hnot hnc (by simpa using he)
   rw [hpost, submitIdx_closeItems]
 
 /-- the main-path facts at the moment `FileSaver.__init__` returns -/
-theorem main_start {cs : List Chunk} {v : Variant} {c : Cfg} (hprog : c.prog = mainItems v cs ++ closeItems)
+theorem main_start {cs : List Chunk} {v : Variant} {c : Cfg} (hnf : v ≠ .forked) (hprog : c.prog = mainItems v cs ++ closeItems)
     (hmd : c.md = ⟨[], false, false⟩) (hw : c.workers = [])
     (htemp : ∃ t, c.fs.temp = some t ∧ ∀ x, x ≠ .md → t.get x = none) : Main cs v c := by
   constructor
@@ -869,10 +913,10 @@ theorem main_start {cs : List Chunk} {v : Variant} {c : Cfg} (hprog : c.prog = m
     rw [hprog] at hm
     exact submit_mem_main hm
   · intro w hwm; simp [hw] at hwm
-  · cases v <;> simp only [Awaited, hw]
-    · simp
-    · left; rw [hprog]; exact waitAll_main (by simp) cs
-    · left; rw [hprog]; exact waitAll_main (by simp) cs
+  · cases v with
+    | serial => simp [Awaited, hw]
+    | executor => simp only [Awaited, hw]; left; rw [hprog]; exact waitAll_main rfl cs
+    | forked => exact absurd rfl hnf
   · rw [hprog, readIdx_main]; simp
   · intro _ t ht j hj
     obtain ⟨t', ht', hnone⟩ := htemp
@@ -918,7 +962,7 @@ theorem inv_late {cs : List Chunk} {v : Variant} {c' : Cfg} (hshape : Shape c'.p
     (hsafe : SafeFS cs c'.fs) (hhand : c'.handling = true → c'.term = true)
     (hmain : c'.handling = false → 16 ≤ hr c'.prog → hr c'.prog ≤ 25 → Main cs v c')
     (htemp : hr c'.prog ≤ 24 → c'.fs.temp ≠ none) (hterm : 19 ≤ hr c'.prog → hr c'.prog ≤ 25 → c'.term = true)
-    (hren : hr c'.prog = 25 → ∃ d, c'.fs.final = some d ∧ d.get .md = some (.json c'.md)) :
+    (hren : hr c'.prog = 25 → ∃ d, c'.fs.final = some d ∧ d.get .md = some (.json c'.md)) (hside : Side v c') :
     Inv cs v c' := by
   constructor
   · exact hshape
@@ -936,6 +980,7 @@ theorem inv_late {cs : List Chunk} {v : Variant} {c' : Cfg} (hshape : Shape c'.p
   · intro _ h24; exact htemp h24
   · exact hterm
   · exact hren
+  · exact hside
 
 theorem rank_15_cases {x : Item} (h : rank x = 15) : x = .armed := rank_milestone_unique mem_milestones_armed h
 
@@ -964,13 +1009,13 @@ theorem inv_sav_armed {cs : List Chunk} {v : Variant} {c c' : Cfg} (h : Inv cs v
         have : hr rest = rank y := by rw [he]; simp
         have := hpre y (by simp)
         omega
-    refine inv_late hsx.tail (by simp only; omega) (by simp [hw]) ?_ ?_ ?_ h.safe ?_ ?_ ?_ ?_ ?_
+    refine inv_late hsx.tail (by simp only; omega) (by simp [hw]) ?_ ?_ ?_ h.safe ?_ ?_ ?_ ?_ ?_ (h.side.congr rfl rfl rfl rfl)
     · intro h18 _; simp only at h18; omega
     · intro h19 _; simp only at h19; omega
     · intro h23 _; simp only at h23; omega
     · intro hh; simp only at hh; rw [hhand] at hh; simp at hh
     · intro _ _ _
-      exact main_start (c := { c with prog := rest, term := false }) hrest hmd hw
+      exact main_start (c := { c with prog := rest, term := false }) h.side.nf.1 hrest hmd hw
         (h.initTemp (by rw [hp]; simp [rank]) (by rw [hp]; simp [rank]))
     · intro _
       obtain ⟨t, ht, _⟩ := h.initTemp (by rw [hp]; simp [rank]) (by rw [hp]; simp [rank])
